@@ -90,6 +90,34 @@ def scenarios(ctx: Ctx):
             sc["cell"] = f"ro={cfgbias['readonly']} ce={cfgbias['create_enabled']} upd={cfgbias['update'][0]} die={cfgbias['delete_if_exists']} pre={pre is not None} live={live}"
             yield sc
     # dynamic plural lookup (apiConfig.plural omitted) x precondition result
+    # a precondition whose assertion evaluates to a truthy NON-boolean: PermFail and no API call at all
+    for nb in ("='false'", "=7", "=inputs.name", "=[true]"):
+        for live in ("absent", "drift"):
+            sc = m.rand_scenario(ctx.rng)
+            m.clean_scenario(sc, ctx.rng)
+            sc["cfg"].update({"plural": "widgets", "readonly": False, "delete_if_exists": False, "create_enabled": True})
+            sc["lookup"] = None
+            sc["pre"] = ["PermFail"]
+            sc["pre_nonbool"] = nb
+            sc["live"] = None if live == "absent" else "derive"
+            sc["live_mode"] = "drift"
+            sc["cell"] = f"non-boolean precondition {nb} live={live}"
+            yield sc
+    # update / create delays left to the CRD schema's defaults (`update: {recreate: {}}`)
+    for upd in ("patch", "recreate"):
+        for live in ("drift", "drift_noowner", "absent"):
+            for _ in range(2 if ctx.quick() else 8):
+                sc = m.rand_scenario(ctx.rng)
+                m.clean_scenario(sc, ctx.rng)
+                sc["cfg"].update({"plural": "widgets", "readonly": False, "delete_if_exists": False, "create_enabled": True,
+                                  "update": [upd, 30], "create_delay": 30})
+                sc["lookup"] = None
+                sc["pre"] = None
+                sc["omit_defaults"] = True
+                sc["live"] = None if live == "absent" else "derive"
+                sc["live_mode"] = live
+                sc["cell"] = f"defaults upd={upd} live={live}"
+                yield sc
     for pre in (None, ["Retry", 5], ["PermFail"]):
         for ro in (False, True):
             for _ in range(2 if ctx.quick() else 10):
